@@ -78,6 +78,7 @@ type Case struct {
 	GoRows  string    `json:"gorows"` // "ok" | "skip:<why>" | "diff:<what>"  (encoding/json parse compared with the rows)
 	NumLoss string    `json:"numloss,omitempty"`
 	Panic   string    `json:"panic,omitempty"`
+	Skip    string    `json:"skip,omitempty"` // the case could not be observed (no Tail frame within the time limit on a loaded machine)
 }
 
 // ---------------------------------------------------------------------------------- generators
@@ -443,8 +444,8 @@ func startTail(c *Case) func() string {
 		select {
 		case o := <-w.GetRes():
 			body = o.Str
-		case <-time.After(10 * time.Second):
-			body = "<no frame within 10s>"
+		case <-time.After(30 * time.Second):
+			c.Skip = "no Tail frame within 30s"
 		}
 		w.Close()
 		go func() {
@@ -1137,6 +1138,13 @@ func goList(c *Case, body string) string {
 	var items []string
 	for _, it := range c.Items {
 		items = append(items, hx.UnHex(it))
+	}
+	if c.Kind == "series" { // the property does not speak about stored texts that are not JSON values
+		for _, it := range items {
+			if !json.Valid([]byte(it)) {
+				return "skip:stored document is not JSON"
+			}
+		}
 	}
 	var got []interface{}
 	switch c.Kind {
